@@ -113,3 +113,11 @@ void h_push(void) {
   VASSERT(G.enq == 1 && G.linked == 1 && NEW.data == G.myval, "H: push swaps the tail to its node once, then links it behind the node the swap returned, once");
   VCANARY("push can return");
 }
+/* init: from ANY memory content the queue starts empty: head == tail == one zeroed dummy node */
+void h_init(void) {
+  static mpsc_fifo_t X; memset(&X, (int)verif_u64(), sizeof(X));
+  int r = mpsc_fifo_init(&X);
+  if (r) VASSERT(X.head != 0 && X.head == X.tail && X.head->next == 0, "C15.mpsc: init: empty queue (one dummy node, unlinked), whatever the memory held");
+  else VASSERT(X.head == 0, "C15.mpsc: a failed init leaves no node behind");
+  VCANARY("mpsc init can return");
+}
